@@ -1130,9 +1130,10 @@ func largeKeys(t *testing.T, prop string, bads []string) {
 					} else if bad == "ERR2" {
 						key = "(e && nosuch(@)) || k"
 					}
-					fn := []string{"sort_by", "max_by", "min_by"}[(pos+pat)%3]
-					run(t, Case{Property: prop, Kind: "diff", Expr: fn + "(@, &" + key + ")", Doc: "[" + strings.Join(elems, ",") + "]", Extra: map[string]interface{}{"cell": "largekeys"}})
-					n++
+					for _, fn := range []string{"sort_by", "max_by", "min_by"} {
+						run(t, Case{Property: prop, Kind: "diff", Expr: fn + "(@, &" + key + ")", Doc: "[" + strings.Join(elems, ",") + "]", Extra: map[string]interface{}{"cell": "largekeys"}})
+						n++
+					}
 				}
 			}
 		}
